@@ -214,3 +214,129 @@ pub unsafe fn blst_p1_from_affine_stub(out: *mut blst::blst_p1, _a: *const blst:
     (*out).y = blst::blst_fp { l: y };
     (*out).z = blst::blst_fp { l: z };
 }
+
+// ------------------------------------------------------------------------------------------------
+// zkir
+
+/// `blst_uint64_from_fr` (Montgomery -> canonical limbs): any four limbs.
+pub unsafe fn blst_uint64_from_fr_stub(ret: *mut u64, _a: *const blst::blst_fr) {
+    let l: [u64; 4] = kani::any();
+    *ret = l[0];
+    *ret.add(1) = l[1];
+    *ret.add(2) = l[2];
+    *ret.add(3) = l[3];
+}
+
+/// Path cut: the first blst call of `Fq::from(u64)`. Everything before it has been explored.
+pub unsafe fn blst_cut_scalar_fr_check(_a: *const blst::blst_scalar) -> bool {
+    kani::assume(false);
+    false
+}
+
+pub static mut TO_LE_BYTES_LEN: usize = 0;
+pub struct BigUintStubs<F, N>(core::marker::PhantomData<(F, N)>);
+impl<F, N> BigUintStubs<F, N>
+where
+    F: midnight_circuits::CircuitField,
+    N: midnight_circuits::instructions::NativeInstructions<F>,
+{
+    /// `BigUintGadget::to_le_bytes`: TO_LE_BYTES_LEN opaque assigned bytes (never inspected by the caller
+    /// under test, only sliced, iterated and resized).
+    pub fn to_le_bytes(
+        _g: &midnight_circuits::biguint::biguint_gadget::BigUintGadget<F, N>,
+        _layouter: &mut impl Layouter<F>,
+        _x: &AssignedBigUint<F>,
+    ) -> Result<Vec<AssignedByte<F>>, Error> {
+        let n = unsafe { TO_LE_BYTES_LEN };
+        let mut v = Vec::new();
+        let mut i = 0;
+        while i < n {
+            v.push(unsafe { core::mem::MaybeUninit::<AssignedByte<F>>::zeroed().assume_init() });
+            i += 1;
+        }
+        Ok(v)
+    }
+}
+// source-text names for the `impl Trait` / type matching of the stub above
+use midnight_circuits::types::{AssignedBigUint, AssignedByte};
+use midnight_proofs::{circuit::Layouter, plonk::Error};
+
+/// A layouter that ends the path when asked to do anything.
+#[derive(Debug)]
+pub struct CutLayouter;
+impl<F: ff::Field> Layouter<F> for CutLayouter {
+    type Root = Self;
+    fn assign_region<A, AR, N, NR>(&mut self, _name: N, _assignment: A) -> Result<AR, Error>
+    where
+        A: FnMut(midnight_proofs::circuit::Region<'_, F>) -> Result<AR, Error>,
+        N: Fn() -> NR,
+        NR: Into<String>,
+    {
+        kani::assume(false);
+        unreachable!()
+    }
+    fn assign_table<A, N, NR>(&mut self, _name: N, _assignment: A) -> Result<(), Error>
+    where
+        A: FnMut(midnight_proofs::circuit::Table<'_, F>) -> Result<(), Error>,
+        N: Fn() -> NR,
+        NR: Into<String>,
+    {
+        kani::assume(false);
+        unreachable!()
+    }
+    fn constrain_instance(
+        &mut self,
+        _cell: midnight_proofs::circuit::Cell,
+        _column: midnight_proofs::plonk::Column<midnight_proofs::plonk::Instance>,
+        _row: usize,
+    ) -> Result<(), Error> {
+        kani::assume(false);
+        unreachable!()
+    }
+    fn get_root(&mut self) -> &mut Self::Root {
+        self
+    }
+    fn get_challenge(&self, _: midnight_proofs::plonk::Challenge) -> midnight_proofs::circuit::Value<F> {
+        midnight_proofs::circuit::Value::unknown()
+    }
+    fn push_namespace<NR, N>(&mut self, _name_fn: N)
+    where
+        NR: Into<String>,
+        N: FnOnce() -> NR,
+    {
+    }
+    fn pop_namespace(&mut self, _gadget_name: Option<String>) {}
+}
+
+/// `HashMap::get`: every name resolves to the value the harness installed in HM_VALUE.
+pub static mut HM_VALUE: *const u8 = core::ptr::null();
+pub struct HmStubs<K, V, S, A>(core::marker::PhantomData<(K, V, S, A)>);
+impl<K, V, S, A> HmStubs<K, V, S, A>
+where
+    K: Eq + core::hash::Hash,
+    S: core::hash::BuildHasher,
+    A: core::alloc::Allocator,
+{
+    pub fn get<'a, Q: ?Sized>(_m: &'a std::collections::HashMap<K, V, S, A>, _k: &Q) -> Option<&'a V>
+    where
+        K: core::borrow::Borrow<Q>,
+        Q: core::hash::Hash + Eq,
+    {
+        unsafe {
+            if HM_VALUE.is_null() {
+                None
+            } else {
+                Some(&*(HM_VALUE as *const V))
+            }
+        }
+    }
+}
+
+/// zkir's `utils::insert` (HashMap insertion of one output name): accepted.
+pub fn zkir_insert_stub<T: Clone>(
+    _map: &mut std::collections::HashMap<String, T>,
+    _name: &str,
+    _value: &T,
+) -> Result<(), midnight_zkir::Error> {
+    Ok(())
+}
